@@ -10,7 +10,11 @@ META = {
             "the contract grain and at the hazard grain (map iterated while the listener inserts); every delivery history up to "
             "3 (quick) / 4 (thorough) messages is replayed on the real signingDoneCheck with the real membership validator, "
             "comparing doneSigners after every message and the value returned by waitUntilAllDone; random concurrent deliveries "
-            "while the waiter runs are trace-validated and also run under the Go race detector.",
+            "while the waiter runs are trace-validated and also run under the Go race detector. A multi-attempt layer "
+            "(SigningDoneLoop: per-attempt included set, timeout block, receiver lifetime, map reset; hazard variant with the "
+            "listener bound to the loop context refuted by TLC) is replayed on the real signingRetryLoop.start + real "
+            "signingDoneCheck with scripted blocks/announcer/attempt function/channel (TLC-simulated and directed "
+            "stale-listener behaviours) and random multi-attempt scripts are trace-validated.",
     "note": "Trusted: the fake broadcast channel honours Recv's context contract; signatures/keys are abstracted injectively "
             "(2 signatures, 4 operator keys); the waiter's 100 ms ticker is real time, so 'would never complete' is decided from "
             "len(doneSigners) != expectedSignersCount once every message is processed.",
@@ -211,5 +215,7 @@ def run(ctx):
                      "symbolic crypto: two signature values, four operator keys; real MembershipValidator and key-to-address code",
                      "the waiter's ticker cannot be driven: interleavings of Check with deliveries are sampled by real time in the "
                      "concurrent runs and inferred by TLC, not enumerated",
-                     "hazard-grain schedules (iteration racing with inserts) are model-checked but not forced on the code (no hook points)"],
+                     "hazard-grain schedules (iteration racing with inserts) are model-checked but not forced on the code (no hook points)",
+                     "multi-attempt layer: three seats, two included per attempt, attempts fail/succeed by script (announcer, attempt "
+                     "function, Send); behaviours are TLC-simulated (seeded) plus three directed scenarios, not exhaustive"],
         exhaustive=True)
